@@ -18,7 +18,8 @@ structures in the text format of `Dtn7.Model.BundleText`):
 `extra` lists the block types among 192..195 registered with the extension block manager, `now0/now1`
 bracket the call (DTN time, ms).
 -/
-open Dtn7.Cbor Dtn7.Eid Dtn7.Bundle Dtn7.BundleText Driver
+open Dtn7.Cbor Dtn7.Eid Dtn7.Bundle Dtn7.BundleText
+open Driver (fields run)
 
 /-- The code the model describes: with the repairs of D5/D6/D7 (`Dtn7.Gen.C01.strict`, checked by
 `Dtn7.Props.C01.gen_strict`). -/
